@@ -287,6 +287,8 @@ pub fn record_classes(c: &Classes, p: &Prepared, st: &mut Stats) {
     flag("k>=3", c.k >= 3);
     flag("prefixed_names", c.prefixed);
     flag("wide_mode", p.case.wide);
+    flag("amplified_to_many_occurrences", p.case.amplified);
+    flag("long_sequence_6..12_documents", p.case.long_sequence);
     flag("surface.cdata", p.ser.cdata > 0);
     flag("surface.comments_or_pis", p.ser.comments > 0);
     flag("surface.both_empty_forms", p.ser.selfclosed > 0 && p.ser.expanded_empty > 0);
